@@ -190,6 +190,9 @@ func buildUnits(r *vlib.Run, prop string, s *harness.Scratch, units []*harness.U
 		if u.WantServices {
 			u.Services = u.AddServiceDriver()
 		}
+		if u.WantRefl {
+			u.Refl = u.AddReflectionDriver()
+		}
 		if err := u.WriteDriver(); err != nil {
 			vlib.Fatal(prop, "driver: %v", err)
 		}
